@@ -300,3 +300,77 @@ Definition verdict_grad (c : gcase) : list nat :=
   tag (Nat.eqb (fst (snd (g_counts c))) (snd (snd (g_counts c)))) 44 ++
   [2000 + length (filter (fun m => match run7 (env_of m) (g_prog c) (g_dv c) with Some _ => true | None => false end)
                          (g_envs c))].
+
+(* ---- mu_reference_model: model against implementation, the solution property of sympy's answers, and the
+   property (same values for every symbol of the original program) on the implementation's output ---- *)
+Record mcase := mkM {
+  m_prog : list stm;
+  m_etas : list (id * id);                       (* eta, mu_<index> in the order of random_variables.etas *)
+  m_table : list (nat * (expr * expr));          (* original index -> (mu_expr, new_def) as sympy answered *)
+  m_after : obs (list stm);                      (* mu_reference_model(model).statements *)
+  m_undef : id;                                  (* the symbol standing for nan / zoo *)
+  m_envs : list (list (id * Q))
+}.
+
+Definition sol_changed (r : env) (mu : id) (m new old : expr) : bool :=
+  match eval r std_fi m with
+  | Some v => changed (eval (upd r mu (Some v)) std_fi new) (eval r std_fi old)
+  | None => false
+  end.
+
+Definition verdict_mu (c : mcase) : list nat :=
+  let p := m_prog c in
+  let envs := map env_of (m_envs c) in
+  let sel := find_eta_assignments (map fst (m_etas c)) p in
+  let ins := inserted_mus (m_etas c) (m_table c) sel p 0 in
+  match m_after c with
+  | OOk a =>
+      match mu_reference (m_etas c) (m_table c) p with
+      | Some out => tag3 (stms_agree 2 envs out a) 50 1050
+      | None => [50]
+      end ++
+      (* every symbol of the original program keeps its value *)
+      tag (preserved envs (diffp (normp (all_sdefs p)) ins) p a) 51 ++
+      (* sympy's (mu_expr, new_def) solve the equation new_def[mu := mu_expr] = old_def *)
+      tag (forallb (fun ie =>
+             match nth_error p (fst ie) with
+             | Some (SAssign _ old) =>
+                 match eta_of (m_etas c) old with
+                 | Some (_, mu) => forallb (fun r => negb (sol_changed r mu (fst (snd ie)) (snd (snd ie)) old)) envs
+                 | None => true end
+             | _ => true end) (m_table c)) 52 ++
+      (* an undefined value (nan / zoo) appears in the result but not in the input *)
+      tag (negb (memp (m_undef c) (all_ssyms a)) || memp (m_undef c) (all_ssyms p)) 54 ++
+      tag (g_mu_fresh (m_etas c) (m_table c) sel p) 250 ++
+      [2000 + length (m_table c)]
+  | OEngine => [1053]
+  | _ => [53]
+  end.
+
+
+(* ---- greekify_model: the renaming table of the model against the dict the implementation hands to
+   rename_symbols (captured), and whether that renaming is injective on the names of the model ---- *)
+Record kcase := mkK {
+  k_thetas : list id; k_cov : list (nat * nat * id); k_etas : list id; k_epss : list id;
+  k_tn : list (nat * id); k_en : list (nat * id); k_pn : list (nat * id);      (* ids of "theta_<i>", ... *)
+  k_on : list (nat * nat * id); k_sn : list (nat * nat * id);                  (* ids of "omega_<r><c>", "sigma_<r><c>" *)
+  k_impl : list (id * id);                                                    (* the captured dict *)
+  k_names : list id;                                                          (* parameters, rvs, columns, t *)
+  k_prog : list stm
+}.
+
+Definition nlook (m : list (nat * id)) (i : nat) : id :=
+  match find (fun kv => Nat.eqb (fst kv) i) m with Some (_, v) => v | None => 1%positive end.
+Definition nlook2 (m : list (nat * nat * id)) (r c : nat) : id :=
+  match find (fun kv => Nat.eqb (fst (fst kv)) r && Nat.eqb (snd (fst kv)) c) m with
+  | Some (_, v) => v | None => 1%positive end.
+
+Definition verdict_greek (c : kcase) : list nat :=
+  let d := greek_table (nlook (k_tn c)) (nlook (k_en c)) (nlook (k_pn c)) (nlook2 (k_on c)) (nlook2 (k_sn c))
+                       (k_thetas c) (k_cov c) (k_etas c) (k_epss c) in
+  tag (same_renaming d (k_impl c) (map fst d ++ map fst (k_impl c) ++ k_names c)) 60 ++
+  (* the renaming is injective on the names of the model (else rename_preserves does not apply) *)
+  tag (g_rename_ok (k_impl c) (k_names c) (k_prog c)) 251 ++
+  (* targets pairwise different and fresh (hypotheses of rename_fresh_preserves) *)
+  tag (nodup_p (normp (map snd (k_impl c))) && Nat.eqb (length (normp (map snd (k_impl c)))) (length (normp (map fst (k_impl c))))) 252 ++
+  tag (negb (interp_nonempty (map snd (k_impl c)) (diffp (k_names c ++ all_ssyms (k_prog c)) (map fst (k_impl c))))) 253.
